@@ -5,9 +5,9 @@ CONSTANTS
  NV = 1
  Cmds = {1, 2, 3}
  RepostAppends = TRUE
- Defect = "none"
+ Defect = "noMatch"
  Honest = {1, 2}
- Args <- ArgsCore
+ Args <- ArgsEpoch
  ByzReqs <- Byz3
  MaxByz = 1
  Faults <- FApi
@@ -20,7 +20,6 @@ CONSTANTS
  MaxChain = 0
  InitSt <- IActive
  Policy = "free"
-INVARIANTS Safety Robust
-PROPERTIES MCDeleteOnlyOwn MCRefusedNoEffect
+INVARIANTS StoreSameMsg
 VIEW View
 CHECK_DEADLOCK FALSE
